@@ -1,9 +1,64 @@
-(* C10 (cbor half) — cbor bytes conform to RFC 8949 in both directions.
-   Only statements, closed by [exact], with [Print Assumptions] beneath each. *)
+(* C10 (cbor half) — cbor bytes conform to RFC 8949 in both directions; wire-layer lemmas
+   other properties build on (dec_enc).  Only statements, closed by [exact], with
+   [Print Assumptions] beneath each.
+
+   Vocabulary: Wire.Cbor (model of the library: enc, dec_naked, skip), C10.CborSpec (RFC 8949
+   written independently: data model sdata, syntax of well-formed items wtree with every
+   width / length-form choice explicit, ser, decoder spec_dec), C10.CborConv (go_of: the Go
+   value carrying given data; lib_supports: documented limits; tdepth; tree_of). *)
 From Coq Require Import List NArith ZArith Lia Bool.
-From Verif Require Import Base.Outcome Wire.Item Gen.Consts Wire.CborFloat Wire.Cbor C10.CborSpec Wire.CborProofs.
+From Verif Require Import Base.Outcome Wire.Item Gen.Consts Wire.CborFloat Wire.Cbor C10.CborSpec C10.CborConv Wire.CborProofs.
 Import ListNotations.
 Open Scope N_scope.
+
+(* IN: every well-formed serialisation [ser t] of a supported item — any permitted head width
+   (non-minimal included), definite or indefinite length, any chunking of strings, half / single /
+   double floats, null or undefined — followed by arbitrary bytes, is decoded into interface{}
+   to the Go value [go_of D] assigns to the data RFC 8949 says it carries, consuming exactly
+   the item; for every option vector D (SignedInteger, RawToString, SkipUnexpectedTags,
+   MaxDepth) and with fuel linear in the input.  Unbounded in sizes and nesting (nesting below
+   MaxDepth is the premise the decoder itself imposes). *)
+Theorem C10_cbor_in : forall (D : dopts) (t : wtree) (rest : list N),
+  twf t -> lib_supports D t -> (tdepth D t < maxdepth D)%Z ->
+  dec_naked D (fuel_for (ser t ++ rest)) (ser t ++ rest) = Ok (go_of D (data_of t), rest).
+Proof. exact cbor_in_lemma. Qed.
+Print Assumptions C10_cbor_in.
+
+(* the specification's own decoder reads back every well-formed serialisation (the spec pair
+   ser / spec_dec is consistent), with fuel linear in the input *)
+Theorem C10_cbor_spec_consistent : forall (t : wtree) (rest : list N),
+  twf t -> spec_dec (spec_fuel (ser t ++ rest)) (ser t ++ rest) = Some (data_of t, rest).
+Proof. exact spec_consistent_lemma. Qed.
+Print Assumptions C10_cbor_spec_consistent.
+
+(* OUT (partial: OptimumSize = false, items other than ITime / IExt): every encoding the library
+   produces is exactly one well-formed item for the RFC 8949 decoder, carrying the item's data
+   [sdata_of O i] (read off the item alone), with no trailing bytes; for every IndefiniteLength /
+   StringToRaw / TimeRFC3339 setting.  Missing: OptimumSize float narrowing (enc_f32/enc_f64 with
+   eo_optsize) and times, which are covered by the correspondence and by the reference decoder
+   oracle of harness/cmd/wirecbor only. *)
+Theorem C10_cbor_out_partial : forall (O : eopts) (i : item),
+  eo_optsize O = false -> wf i -> plain i ->
+  spec_dec (spec_fuel (enc O i)) (enc O i) = Some (sdata_of O i, []).
+Proof. exact cbor_out_lemma. Qed.
+Print Assumptions C10_cbor_out_partial.
+
+(* the encoder emits one of the well-formed serialisations (its form choices are tree_of) *)
+Theorem C10_cbor_enc_wellformed : forall (O : eopts) (i : item),
+  eo_optsize O = false -> wf i -> plain i -> enc O i = ser (tree_of O i) /\ twf (tree_of O i).
+Proof. exact enc_wellformed_lemma. Qed.
+Print Assumptions C10_cbor_enc_wellformed.
+
+(* dec_enc (partial as above): decoding what the encoder wrote gives [norm O D i] =
+   go_of D (sdata_of O i): non-negative integers come back unsigned unless SignedInteger, float32
+   widened, StringToRaw strings as bytes (or strings again under RawToString), []byte map keys as
+   strings, kept tags as ITag / dropped under SkipUnexpectedTags *)
+Theorem Wcbor_dec_enc_partial : forall (O : eopts) (D : dopts) (i : item) (rest : list N),
+  eo_optsize O = false -> wf i -> plain i ->
+  lib_supports D (tree_of O i) -> (tdepth D (tree_of O i) < maxdepth D)%Z ->
+  dec_naked D (fuel_for (enc O i ++ rest)) (enc O i ++ rest) = Ok (norm O D i, rest).
+Proof. exact dec_enc_lemma. Qed.
+Print Assumptions Wcbor_dec_enc_partial.
 
 (* all 65536 half-precision floats: the code's halfFloatToFloatBits (hand-modelled, tied by the
    leaf stream on all 65536 inputs) equals the RFC 8949 Appendix D value; exhaustive (two nested
@@ -12,5 +67,42 @@ Theorem C10_half : forall h : N, h < 65536 -> half_to_f32 h = spec_half h.
 Proof. exact half_all. Qed.
 Print Assumptions C10_half.
 
+(* ---- non-vacuity ---- *)
 Example C10_half_nonvacuous : half_to_f32 15360 = 1065353216 /\ spec_half 1 = 864026624 /\ half_to_f32 64512 = 4286578688.
 Proof. vm_compute. repeat split. Qed.
+
+(* {"a": [1, -2, h'01', 1.5 (half)], 2: <tag 100>(indefinite text "xy" in two chunks)} with non-minimal heads,
+   an indefinite array inside a definite map *)
+Definition ex_tree : wtree :=
+  TMap W1 [ (TText W2 [97], TArrI [TUint W4 1; TNint W0 1; TBytes W1 [1]; THalf 15872]);
+            (TUint W0 2, TTag W2 100 (TTextI [(W0, [120]); (W1, [121])])) ].
+Definition ex_D : dopts := mkdo false false false 0.
+
+Example C10_cbor_in_nonvacuous :
+  twf ex_tree /\ lib_supports ex_D ex_tree /\ (tdepth ex_D ex_tree < maxdepth ex_D)%Z /\
+  ser ex_tree = [184; 2; 121; 0; 1; 97; 159; 26; 0; 0; 0; 1; 33; 88; 1; 1; 249; 62; 0; 255; 2; 217; 0; 100; 127; 97; 120; 120; 1; 121; 255] /\
+  dec_naked ex_D (fuel_for (ser ex_tree)) (ser ex_tree) =
+    Ok (IMap [(IStr [97], IArr [IUint 1; IInt (-2); IBytes [1]; IF64 4609434218613702656]);
+              (IUint 2, ITag 100 (IStr [120; 121]))], []).
+Proof.
+  split; [| split; [| split; [| split]]].
+  - cbn. repeat (apply conj || apply Forall_cons || apply Forall_nil || lia || exact I || (cbn; lia)).
+  - cbn. repeat (apply conj || apply Forall_cons || apply Forall_nil || lia || exact I || discriminate || reflexivity).
+  - vm_compute. reflexivity.
+  - vm_compute. reflexivity.
+  - vm_compute. reflexivity.
+Qed.
+
+Example C10_cbor_out_nonvacuous :
+  let O := mkeo true false false false in
+  let i := IArr [IInt (-500); IStr [104; 105]; IMap [(IUint 1, IF64 4609434218613702656)]; ITag 32 INil] in
+  wf i /\ plain i /\ enc O i = [159; 57; 1; 243; 127; 98; 104; 105; 255; 191; 1; 251; 63; 248; 0; 0; 0; 0; 0; 0; 255; 216; 32; 246; 255]
+  /\ spec_dec (spec_fuel (enc O i)) (enc O i)
+     = Some (DArr [DNint 499; DText [104; 105]; DMap [(DUint 1, DFloat 64 4609434218613702656)]; DTag 32 (DSimple 22)], []).
+Proof.
+  cbv zeta. split; [| split; [| split]].
+  - cbn. repeat (apply conj || apply Forall_cons || apply Forall_nil || lia || exact I).
+  - cbn. repeat (apply conj || lia || exact I).
+  - vm_compute. reflexivity.
+  - vm_compute. reflexivity.
+Qed.
